@@ -46,6 +46,7 @@ static const char *DOCS[] = {
 };
 #define NDOCS 8
 
+static int patch_like_partial; /* a multi-step operation failed after partial success: "unchanged" is not required */
 static struct json_object *parse_doc(int i)
 {
 	struct json_object *o = json_tokener_parse(DOCS[i]);
@@ -92,6 +93,109 @@ static int op_parse(struct wctx *c)
 	}
 	c->out = o;
 	dump_to(o, &c->res);
+	return R_OK;
+}
+/* after an out-of-memory outcome the same parser object, reset, must parse like a new one */
+static int op_parse_retry(struct wctx *c)
+{
+	struct json_tokener *tok = json_tokener_new();
+	if (!tok)
+		return R_FAIL;
+	const char *t = DOCS[c->arg];
+	struct json_object *o = json_tokener_parse_ex(tok, t, (int)strlen(t) + 1);
+	enum json_tokener_error e = json_tokener_get_error(tok);
+	if (e == json_tokener_error_memory)
+	{
+		vf_fail_plan(0, 0); /* memory is available again */
+		json_object_put(o);
+		json_tokener_reset(tok);
+		o = json_tokener_parse_ex(tok, t, (int)strlen(t) + 1);
+		e = json_tokener_get_error(tok);
+		if (e != json_tokener_success)
+		{
+			mc_violation("parser-unusable-after-memory-error", "after an out-of-memory outcome and json_tokener_reset the same text fails with '%s'", json_tokener_error_desc(e));
+			json_object_put(o);
+			json_tokener_free(tok);
+			return R_BAD;
+		}
+	}
+	else if (e != json_tokener_success)
+	{
+		json_object_put(o);
+		json_tokener_free(tok);
+		mc_violation("wrong-failure-channel", "parse under allocation failure ended with status '%s' instead of out of memory", json_tokener_error_desc(e));
+		return R_BAD;
+	}
+	json_tokener_free(tok);
+	c->out = o;
+	dump_to(o, &c->res);
+	return R_OK;
+}
+static void setup_churned(struct wctx *c)
+{
+	/* containers with a history: tombstones in the table, a shrunk array */
+	c->pre = json_object_new_object();
+	for (int i = 0; i < 9; i++)
+	{
+		char k[8];
+		snprintf(k, sizeof k, "k%d", i);
+		json_object_object_add(c->pre, k, json_object_new_int(i));
+	}
+	for (int i = 0; i < 9; i += 2)
+	{
+		char k[8];
+		snprintf(k, sizeof k, "k%d", i);
+		json_object_object_del(c->pre, k);
+	}
+	struct json_object *a = json_object_new_array_ext(2);
+	for (int i = 0; i < 6; i++)
+		json_object_array_add(a, json_object_new_int(i));
+	json_object_array_del_idx(a, 1, 4);
+	json_object_array_shrink(a, 0);
+	json_object_object_add(c->pre, "arr", a);
+	c->val = json_object_new_string("the value");
+	c->val_owned = 1;
+}
+static int op_churned(struct wctx *c)
+{
+	int rc = 0;
+	struct json_object *a = json_object_object_get(c->pre, "arr");
+	switch (c->arg)
+	{
+	case 0: /* add enough new members to force growth over a table full of tombstones */
+		rc = json_object_object_add(c->pre, "n0", c->val);
+		if (rc == 0)
+		{
+			c->val_owned = 0;
+			for (int i = 1; i < 8 && rc == 0; i++)
+			{
+				char k[8];
+				snprintf(k, sizeof k, "n%d", i);
+				struct json_object *v = json_object_new_int(i);
+				if (!v)
+				{
+					rc = -1;
+					break;
+				}
+				rc = json_object_object_add(c->pre, k, v);
+				if (rc)
+					json_object_put(v);
+			}
+			if (rc)
+			{
+				/* a later step failed after earlier ones succeeded: the object legitimately changed */
+				patch_like_partial = 1;
+				return R_FAIL;
+			}
+		}
+		break;
+	case 1: rc = json_object_array_put_idx(a, 5, c->val); break;
+	default: rc = json_object_array_insert_idx(a, 1, c->val); break;
+	}
+	if (rc)
+		return R_FAIL;
+	c->val_owned = 0;
+	dump_to(c->pre, &c->res);
 	return R_OK;
 }
 static int op_parse_simple(struct wctx *c)
@@ -473,6 +577,9 @@ static const struct wl WL[] = {
     W("parse_ex comments", "parse", setup_none, op_parse, 6),
     W("parse_ex mixed", "parse", setup_none, op_parse, 7),
     W("json_tokener_parse mixed", "parse", setup_none, op_parse_simple, 7),
+    W("parse, memory error, reset, parse again (34 elements)", "parse", setup_none, op_parse_retry, 1),
+    W("parse, memory error, reset, parse again (12 members)", "parse", setup_none, op_parse_retry, 2),
+    W("parse, memory error, reset, parse again (mixed)", "parse", setup_none, op_parse_retry, 7),
     W("new_object", "construct", setup_none, op_construct, 0),
     W("new_array", "construct", setup_none, op_construct, 1),
     W("new_array_ext", "construct", setup_none, op_construct, 2),
@@ -492,6 +599,9 @@ static const struct wl WL[] = {
     W("array_put_idx beyond end", "add", setup_arr32, op_arr_add, 2),
     W("array_put_idx replace", "add", setup_arr32, op_arr_add, 3),
     W("array_shrink", "add", setup_arr32, op_arr_add, 4),
+    W("8 adds into a table full of tombstones", "add", setup_churned, op_churned, 0),
+    W("put_idx beyond the end of a shrunk array", "add", setup_churned, op_churned, 1),
+    W("insert_idx into a shrunk array", "add", setup_churned, op_churned, 2),
     W("set_string growing", "setstr", setup_str, op_set_string, 0),
     W("set_string_len growing", "setstr", setup_str, op_set_string, 1),
     W("set_string growing again (separate storage)", "setstr", setup_str, op_set_string, 2),
@@ -609,7 +719,7 @@ static long run_one(int w, long k1, long k2)
 		}
 	}
 	/* objects the caller still owns are valid and unchanged */
-	if (c.pre && !(patch_failed_inplace && st == R_FAIL) && st != R_OK)
+	if (c.pre && !((patch_failed_inplace || patch_like_partial) && st == R_FAIL) && st != R_OK)
 	{
 		dump_to(c.pre, &d1);
 		if (strcmp(sb_str(&d0), sb_str(&d1)))
@@ -619,7 +729,7 @@ static long run_one(int w, long k1, long k2)
 			mc_violation(sig, "after the failed operation the pre-existing tree dumps as %.200s (was %.200s)", sb_str(&d1), sb_str(&d0));
 		}
 	}
-	else if (c.pre && patch_failed_inplace)
+	else if (c.pre && (patch_failed_inplace || patch_like_partial))
 		dump_to(c.pre, &d1); /* must at least be traversable (ASan) */
 	if (c.pre2)
 	{
@@ -634,6 +744,7 @@ static long run_one(int w, long k1, long k2)
 	}
 	free(pre2_before);
 	patch_failed_inplace = 0;
+	patch_like_partial = 0;
 	if (c.val && c.val_owned)
 	{
 		/* the caller still owns the value: it must be intact and releasable */
